@@ -402,6 +402,15 @@ class StubsLib(StubsBase):
             "round": Stub(lambda c, x, decimals=0: self.np_round(c, x), "np.round"),
             "iscomplexobj": Stub(self.np_iscomplexobj, "np.iscomplexobj"),
             "result_type": Stub(self.np_result_type, "np.result_type"),
+            # ufuncs spelled as functions: the same operation as the operator (out= is a write to that array)
+            "multiply": Stub(lambda c, a, b, out=None, **k: self._np_binary(c, ast.Mult(), a, b, out, k), "np.multiply"),
+            "add": Stub(lambda c, a, b, out=None, **k: self._np_binary(c, ast.Add(), a, b, out, k), "np.add"),
+            "subtract": Stub(lambda c, a, b, out=None, **k: self._np_binary(c, ast.Sub(), a, b, out, k), "np.subtract"),
+            "divide": Stub(lambda c, a, b, out=None, **k: self._np_binary(c, ast.Div(), a, b, out, k), "np.divide"),
+            "true_divide": Stub(lambda c, a, b, out=None, **k: self._np_binary(c, ast.Div(), a, b, out, k), "np.true_divide"),
+            "negative": Stub(lambda c, a, out=None, **k: self._np_unary(c, ast.USub(), a, out, k), "np.negative"),
+            "positive": Stub(lambda c, a, out=None, **k: self._np_unary(c, ast.UAdd(), a, out, k), "np.positive"),
+            "square": Stub(lambda c, a, out=None, **k: self._np_binary(c, ast.Mult(), a, a, out, k), "np.square"),
             "allclose": Stub(self.np_allclose, "np.allclose"),
             "all": Stub(self.np_all, "np.all"),
             "any": Stub(self.np_any, "np.any"),
@@ -614,6 +623,30 @@ class StubsLib(StubsBase):
         if isinstance(x, Qty):
             return self.qty_getattr(x, "round", ctx).fn(ctx)
         return V.rint_real(ctx, x)
+
+    def _np_binary(self, ctx, op, a, b, out, kw):
+        if kw:
+            raise Unsupported(f"ufunc keyword(s) {sorted(kw)}")
+        r = self.interp.binop(op, a, b, ctx)
+        return self._np_store_out(ctx, r, out)
+
+    def _np_unary(self, ctx, op, a, out, kw):
+        if kw:
+            raise Unsupported(f"ufunc keyword(s) {sorted(kw)}")
+        r = self.interp.unop(op, a, ctx)
+        return self._np_store_out(ctx, r, out)
+
+    def _np_store_out(self, ctx, r, out):
+        if out is None:
+            return r
+        target = out.val if isinstance(out, Qty) else out
+        rv = r.val if isinstance(r, Qty) else r
+        if not isinstance(target, SArr) or not isinstance(rv, SArr):
+            raise Unsupported("ufunc out= with a non-array")
+        self.frame_write_arr(target, "ufunc out=", ctx)
+        target.elem = rv.elem
+        target.written = True
+        return out
 
     def np_result_type(self, ctx, *args):
         """np.result_type of dtypes / arrays: answered by the installed NumPy on the dtype names."""
